@@ -28,7 +28,7 @@ func init() {
 		Rule:             "roles {schema, user type (8 usages: alias, property, item, key shortcut, allOf parent at the root and deep inside a long root text, type rule, or rule), enum rule, regex type, document (2 modes, 4 schemas)} x every public method on fresh objects and in sequence on one object, over inputs: (i) ALL strings <= 4 (thorough 5) over a 26-symbol schema alphabet; (ii) every truncation and every single-byte deletion / insertion / substitution by 12 (thorough 26) symbols at every offset of the corpus (all testdata schema/type/enum/json files <= 400 (thorough 4096) bytes + generator outputs); (v) grammar-directed product: 7 examples x 21 rule names x 46 hostile rule values x 6 annotation positions (+ 7 second rules in both orders), 140 type bodies over self/other/missing references, enum and regex bodies x 18 comment/literal tails, runs of 1..12 malformed UTF-8 units inside strings in every role; (iii) numerals with huge exponents in isolated, memory-capped processes; (iv) EVERY errors.Format / ErrorCode construction site found by go/parser in the current tree and EVERY row of the template table, executed. Oracle: no panic, no process death, termination, every error exposes ErrCode()+Message() (directly or via errors.As), Position() < max(1,len(source it names)), Error()/Line()/SourceSubString() do not panic. Non-trivial = distinct (role, input).",
 		Run:              run,
 		Replay:           replay,
-		QuickBudget:      150 * time.Second,
+		QuickBudget:      300 * time.Second,
 		ThoroughBudget:   14 * time.Minute,
 		CrashIsViolation: true,
 		Finish:           finish,
@@ -576,6 +576,25 @@ func loadCorpus(maxLen int) []corpusItem {
 		{"regex", "/^a[bc]+\\/d$/ rest", "gen/regex-1"},
 		{"document", "{\"a\":[1,2.5e-3,\"x\\n\\u00e9\",true,null,{}],\"b\":{\"c\":[]}}", "gen/doc-1"},
 	}
+	// single lines of 300..500 bytes (minified texts): every edit puts an error on a line longer than the
+	// 200 bytes a rendered excerpt may have, most of them in its last 197 bytes
+	var props, nums []string
+	for i := 0; i < 24; i++ {
+		props = append(props, fmt.Sprintf("\"key%02d\": \"value %02d\"", i, i))
+	}
+	for i := 0; i < 90; i++ {
+		nums = append(nums, fmt.Sprint(100+i))
+	}
+	longObj := "{" + strings.Join(props, ", ") + "}"
+	gens = append(gens,
+		corpusItem{"schema", longObj, "gen/long-line-schema"},
+		corpusItem{"schema", "  " + longObj[:len(longObj)-1] + ", \"last\": true }", "gen/long-line-schema-2"},
+		corpusItem{"type", longObj, "gen/long-line-type"},
+		corpusItem{"document", longObj, "gen/long-line-document"},
+		corpusItem{"document", "[" + strings.Join(nums, ",") + "]", "gen/long-line-document-2"},
+		corpusItem{"enum", "[" + strings.Join(nums, ", ") + "]", "gen/long-line-enum"},
+		corpusItem{"regex", "/^" + strings.Repeat("[a-z]+-", 40) + "$/", "gen/long-line-regex"},
+	)
 	out = append(out, gens...)
 	sort.Slice(out, func(i, j int) bool { return out[i].name < out[j].name })
 	return out
